@@ -802,6 +802,10 @@ class C:
         return "C(%r, %r)" % (self.re, self.im)
 
 
+numbers.Real.register(R)        # pyMOTO asks isinstance(x, numbers.Number) for padding values
+numbers.Complex.register(C)
+
+
 # ------------------------------------------------------------------------------------------------
 def sym(name, positive=False, nonzero=False, lo=None, hi=None):
     """Fresh real symbol (as R)."""
